@@ -295,8 +295,14 @@ class Lane:
         """after a (known) stale step: drop the module's archives so that later steps start from a sound cache"""
         clear_module(self.xdg)
         self.seen_cfg = set()
-        if self.snapshots is not None:
+        # re-prime: the next step must meet archives of the CURRENT tree, otherwise it would pass trivially (everything a miss)
+        exe = os.path.join(self.bin, "reprime.bin")
+        rc, _ = self.build(self.xdg, exe)
+        if rc == 0:
+            self.seen_cfg.add(gen.cfg_key(self.cfg))
             self.snapshots.append((self.state, tree_mtimes(self.src)))
+        if os.path.exists(exe):
+            os.remove(exe)
 
     def replay_files(self, upto=None):
         """files for a replay directory: the history as data + the tree as it is now"""
